@@ -135,6 +135,8 @@ FINDING_FAMILIES = {
 }
 
 TEMPLATES = [
+    "{ \"a$b\" = 1; }", "{ \"$\" = 1; \"$$\" = 2; }", "{ pkgs.\"price$\" = 1; }", "let \"a$b\" = 1; in x", "{ \"a\\$b\" = 1; \"${x}$\" = 2; }",
+    "{ a = /* default */ 1; }", "{ a /* c */ = 1; }", "let a = /* c */ 1; in a",
     "{ a = 1; b = \"s\"; }", "{\n  a = 1; # c\n  b.c = [ 1 2 ];\n}\n", "let a = 1; in a", "let\n  a = 1;\n  inherit (b) c;\nin\n{ inherit a; }\n",
     "{ pkgs, lib, ... }:\npkgs.mkDerivation {\n  name = \"x\";\n  src = ./src;\n}\n", "a: b: a + b", "{ a ? 1, b }@args: a", "args@{ ... }: args",
     "with pkgs; [ a b c ]", "with import <nixpkgs> { };\nstdenv", "assert a == b; c", "assert a; /* c */ b", "if a then b else c",
